@@ -124,15 +124,35 @@ def build_param(kind, ps, p):
 # --------------------------------------------------------------------------------------
 # simulation
 # --------------------------------------------------------------------------------------
-class Sim:
-    def __init__(self, trace):
-        self.trace = trace
-        self.kind = trace["kind"]
-        self.data = {d["id"]: np.array(d["values"], dtype=float).reshape(len(d["values"]), d["p"]) for d in trace["datasets"]}
+class Slot:
+    """One cost instance held by one user (several independent instances of the same
+    class may be alive in one history: state must not leak between them)."""
+
+    def __init__(self):
         self.cost = None
         self.param = None  # materialised
         self.param_spec = None
         self.fitted = None  # dataset id or None (unspecified)
+        self.dets = {}
+
+
+def _slot_attr(name):
+    return property(lambda self: getattr(self.cur, name), lambda self, v: setattr(self.cur, name, v))
+
+
+class Sim:
+    cost = _slot_attr("cost")
+    param = _slot_attr("param")
+    param_spec = _slot_attr("param_spec")
+    fitted = _slot_attr("fitted")
+    dets = _slot_attr("dets")
+
+    def __init__(self, trace):
+        self.trace = trace
+        self.kind = trace["kind"]
+        self.data = {d["id"]: np.array(d["values"], dtype=float).reshape(len(d["values"]), d["p"]) for d in trace["datasets"]}
+        self.slots = [Slot() for _ in range(int(trace.get("config", {}).get("instances", 1)))]
+        self.cur = self.slots[0]
         self.fit_epoch = 0
         self.answers = {}
         self.version = {}
@@ -140,7 +160,6 @@ class Sim:
         self.violations = []
         self.sig = []
         self.nontrivial = False
-        self.dets = {}
         self.stats = {
             "steps": 0,
             "comparisons": 0,
@@ -187,7 +206,10 @@ class Sim:
         i = len(self.events)
         self.stats["steps"] += 1
         op = st["op"]
-        ev = {"i": i, "op": op}
+        ev = {"i": i, "op": op, "k": st.get("k", 0)}
+        self.cur = self.slots[st.get("k", 0) % len(self.slots)]
+        if st.get("k", 0):
+            self.probe("step_on_second_instance")
         getattr(self, "op_" + op)(st, ev, i)
         self.events.append(ev)
         self.sig.append((op, self.kind, self.mode() if self.cost is not None else None, ev.get("tag")))
@@ -220,8 +242,9 @@ class Sim:
         new = np.array(st["values"], dtype=float).reshape(self.data[d].shape)
         self.data[d][...] = new
         self.version[d] = self.version.get(d, 0) + 1
-        if self.fitted == d:
-            self.fitted = None
+        for sl in self.slots:
+            if sl.fitted == d:
+                sl.fitted = None
         self.probe("data_mutated_in_place")
         ev["res"] = "ok"
 
@@ -415,7 +438,7 @@ class Sim:
         pass
 
     def event_digest(self):
-        return core.digest([(e["i"], e["op"], e.get("res"), e.get("out"), e.get("tag")) for e in self.events])
+        return core.digest([(e["i"], e["op"], e.get("k"), e.get("res"), e.get("out"), e.get("tag")) for e in self.events])
 
 
 # --------------------------------------------------------------------------------------
@@ -476,6 +499,15 @@ DET_MENU = [
 
 
 def gen_step(rng, sim, cfg, datasets):
+    k = int(rng.integers(len(sim.slots))) if len(sim.slots) > 1 and rng.random() < 0.5 else 0
+    sim.cur = sim.slots[k]
+    st = _gen_step(rng, sim, cfg, datasets)
+    if k:
+        st["k"] = k
+    return st
+
+
+def _gen_step(rng, sim, cfg, datasets):
     r = rng.random()
     if sim.cost is None or r < 0.05:
         p_ref = datasets[0]["p"]
@@ -544,6 +576,7 @@ def gen_world(rng, tier):
         "det_runs": bool(rng.random() < 0.6),
         "faults": ["interrupt"] if rng.random() < 0.5 else [],
         "p_fault": float(rng.uniform(0.05, 0.25)),
+        "instances": int(rng.choice([1, 1, 2, 2, 3])),
     }
     datasets = []
     did = 0
@@ -595,7 +628,7 @@ def replay(trace, pristine=None):
 TIERS = {"quick": {"runs": 6000, "guard": 120}, "thorough": {"runs": 40000, "guard": 300}}
 
 RULE = (
-    "One case = one seeded history on one cost object (L2Cost, GaussianVarCost or GaussianCovCost; optimal or "
+    "One case = one seeded history on 1-3 independent cost objects of one class (L2Cost, GaussianVarCost or GaussianCovCost; optimal or "
     "fixed scalar / per-column / matrix parameter): new / set_params / fit (ndarray or DataFrame, float or int, "
     "refits on same-shape twins and other shapes) / evaluate of a batch merged from earlier and new admissible "
     "intervals with duplicates in seeded order under a seeded permutation of the prange loop / runs of a detector "
